@@ -143,8 +143,14 @@ theorem C18_model_meets_spec (i : Input) (h : WF i = true) : specOK (run i) = tr
     for every sub-command and whatever the command line would have written -/
 theorem C18_diagnosed_classes_clean (cmd : Cmd) (d : Damage) (outs stale : List String) :
     specOK (run (classify cmd d outs stale)) = true := by
-  apply C18_model_meets_spec
-  cases d <;> cases cmd <;> rfl
+  by_cases hd : d = .outputBlocked
+  · -- the first output cannot be put in place: an I/O error in the first notedownSrc, nothing has been written yet
+    subst hd
+    cases outs with
+    | nil => rfl
+    | cons f r => simp [classify, run, preExit, writeAll, specOK, Exit.code]
+  · apply C18_model_meets_spec
+    cases d <;> cases cmd <;> first | rfl | exact absurd rfl hd
 
 /-! ### second tie: the regenerated tables -/
 
